@@ -366,6 +366,7 @@ class Report:
 
     def finish(self):
         os.makedirs(EVID, exist_ok=True)
+        shutil.rmtree(os.path.join(REPLAYS, self.pid), ignore_errors=True)   # replays of earlier runs
         known = known_findings(self.pid)
         real = []
         for what, obj in self.violations:
